@@ -214,6 +214,9 @@ def matrix(tier):
         out.append(("fcprod", {"xtal": "hcp-2", "S": S2, "compact": compact}))
         out.append(("fcprod", {"xtal": "tri-P1-3", "S": S1, "compact": compact}))
         out.append(("fcprod", {"xtal": "bcc-conv-2", "S": S1, "pm": "I", "compact": compact}))
+        # several atoms per species in the primitive cell: symmetry maps displaced atoms onto one another
+        out.append(("fcprod", {"xtal": "wurtzite-4", "S": [[2, 0, 0], [0, 2, 0], [0, 0, 1]], "compact": compact}))
+        out.append(("fcprod", {"xtal": "rutile-6", "S": [[1, 0, 0], [0, 1, 0], [0, 0, 2]], "compact": compact}))
     for nac in (None, "wang", "gonze"):
         for nq in ((1, 2, 5, 17) if nac != "gonze" else (1, 5)):
             for compact in (False, True):
